@@ -31,8 +31,8 @@ ASSUMPTIONS = [
     "np.memmap inputs come back as plain arrays (documented); aliasing between arrays is not part of the statement",
 ]
 SHARDS = {"quick": 12, "thorough": 14}
-FLOORS = {"quick": {"arrays_spanning_several_read_chunks": 60, "round_trips": 3000, "mmap_loads": 400, "worker_runs": 60, "worker_memmapped_args": 20, "subclass_round_trips": 100},
-          "thorough": {"arrays_spanning_several_read_chunks": 1500, "arrays_spanning_several_write_chunks": 5, "round_trips": 60000, "mmap_loads": 8000, "worker_runs": 900, "worker_memmapped_args": 300, "subclass_round_trips": 2000}}
+FLOORS = {"quick": {"arrays_spanning_several_read_chunks": 60, "round_trips": 3000, "mmap_loads": 400, "worker_runs": 60, "worker_memmapped_args": 20, "subclass_round_trips": 100, "worker_runs_with_a_view_of_a_file_backed_array": 40},
+          "thorough": {"arrays_spanning_several_read_chunks": 1500, "arrays_spanning_several_write_chunks": 5, "round_trips": 60000, "mmap_loads": 8000, "worker_runs": 900, "worker_memmapped_args": 300, "subclass_round_trips": 2000, "worker_runs_with_a_view_of_a_file_backed_array": 600}}
 CHILD = os.path.join(harness.VERIF, "checks", "c19_child.py")
 
 
@@ -313,8 +313,16 @@ def run_workers(case, ctx):
         specs.append(dict(dtype=dt, shape=rng.choice([[7], [3, 4], [2, 3, 4], [33], [600], [40, 50], [0], []]),
                           layout=rng.choice(["C", "F", "sliced", "transposed", "offset-view"]),
                           max_nbytes=rng.choice(["none", "size-1", "size", "size+1", "1K", "0"]),
-                          memmap_backed=rng.random() < 0.3, mm_offset=rng.choice([0, 16, 64, 4096]), mm_slice=rng.random() < 0.5,
+                          memmap_backed=rng.random() < 0.4, mm_offset=rng.choice([0, 16, 64, 4096]), mm_slice=rng.random() < 0.5,
+                          mm_view=rng.choice([None, None, "T", "rev", "rev-last", "step", "inner", "swap", "plain-ndarray", "plain-ndarray-T", "rev-all", "newaxis"]),
                           mmap_mode=rng.choice(["r", "r", "c", "r+", "w+"])))
+    views = ["T", "rev", "rev-last", "step", "inner", "swap", "plain-ndarray", "plain-ndarray-T", "rev-all", "newaxis"]
+    for j in range(4):
+        # views of file-backed arrays with at least two dimensions: every kind of view comes up in every few cases
+        specs.append(dict(dtype=gen_np.pick_dtype(rng, allow_object=False), shape=rng.choice([[3, 4], [2, 3, 4], [40, 50], [5, 1], [4, 4]]),
+                          layout=rng.choice(["C", "F"]), max_nbytes=rng.choice(["none", "size+1", "1K", "0"]), memmap_backed=True,
+                          mm_offset=rng.choice([0, 16, 64, 4096]), mm_slice=rng.random() < 0.3, mm_view=views[(case["i"] * 4 + j) % len(views)],
+                          mmap_mode=rng.choice(["r", "c", "r+", "w+"])))
     d = harness.mkscratch("vjl-c19w-")
     try:
         cf, of = os.path.join(d, "cfg.json"), os.path.join(d, "out.json")
@@ -329,6 +337,8 @@ def run_workers(case, ctx):
             spec = run["spec"]
             desc = dict(spec, backend=backend, size=run["size"])
             ctx.count("worker_runs")
+            if spec.get("memmap_backed") and spec.get("mm_view") and run["size"]:
+                ctx.count("worker_runs_with_a_view_of_a_file_backed_array")
             if "exc" in run:
                 ctx.violation("workers:raises", f"Parallel with an array argument raised {run['exc']}; {desc}", desc)
                 continue
